@@ -254,7 +254,13 @@ impl<B> Flow<B, SendRequest> {
     pub fn write(&mut self, output: &mut [u8]) -> Result<usize, Error> {
         match &mut self.inner.call {
             CallHolder::WithoutBody(v) => v.write(output),
-            CallHolder::WithBody(v) => v.write(&[], output).map(|r| r.1),
+            CallHolder::WithBody(v) => {
+                if v.is_body() {
+                    // The request is fully written. The body belongs to the SendBody state.
+                    return Ok(0);
+                }
+                v.write(&[], output).map(|r| r.1)
+            }
             _ => unreachable!(),
         }
     }
